@@ -553,6 +553,7 @@ def multitask(S, kind, M, n, T, Q, B=0):
         out = S.must_not_raise("%s multitask model call (latent/task dim %d)" % (kind, ldim), lambda: model(X))
         mean_all, cov_all = out.mean, out.covariance_matrix
         inter = out._interleaved
+        kl_t = S.must_not_raise("%s multitask kl_divergence" % kind, lambda: model.variational_strategy.kl_divergence())
         SEL = None
         if not B and (kind == "independent" or M == 1):
             # (LMC with M >= 2: the Hadamard product of the latent covariance with the coefficient outer product goes through root
@@ -560,6 +561,15 @@ def multitask(S, kind, M, n, T, Q, B=0):
             ti = torch.tensor([(T - 1 - i) % T for i in range(n)])
             sel = S.must_not_raise("%s multitask model call with task_indices" % kind, lambda: model(X, task_indices=ti))
             SEL = (ti.tolist(), sel.mean, sel.covariance_matrix)
+    # KL of the wrapper = sum over the latent GPs (of this batch element) of the whitened KL(N(m, S) || N(0, I))
+    S.check_concrete(tuple(kl_t.shape) == ((B,) if B else ()), "%s multitask KL has the batch shape without the latent dimension" % kind, str(tuple(kl_t.shape)))
+    if tuple(kl_t.shape) == ((B,) if B else ()):
+        for bb in (range(B) if B else [None]):
+            tot = Sym.const(0.0)
+            for l in range(nl):
+                b_ = (l, bb) if B else (l,)
+                tot = tot + (-_logdet(S, "cholesky", b_, M, bs) + np.sum(np.diagonal(Cq[b_])) + np.sum(Mq[b_] * Mq[b_]) - Sym.const(float(M))) * Sym.const(0.5)
+            S.prove_eq(kl_t[bb] if B else kl_t, tot, "%s multitask KL%s = sum of the latent KLs" % (kind, (" batch %d" % bb) if B else ""))
     for bb in (range(B) if B else [None]):
         _multitask_ref(S, kind, M, n, T, nl, jit, inter, Gs, K, J, mall, Mq, Cq, ((W[:, bb, :] if (B and W.ndim == 3) else W) if kind == "lmc" else None),
                        mean_all[bb] if B else mean_all, cov_all[bb] if B else cov_all, (lambda l: (l, bb)) if B else (lambda l: (l,)),
